@@ -103,7 +103,8 @@ class Integrator(object):
                         else:
                             min_val = np.inf
                     else:
-                        if pa.get_number_of_particles() > 0:
+                        # pa.dt_adapt holds the real particles only.
+                        if pa.get_number_of_particles(real=True) > 0:
                             min_val = np.min(pa.dt_adapt)
                         else:
                             min_val = np.inf
@@ -154,6 +155,11 @@ class Integrator(object):
             else:
                 h = pa.get_carray('h')
                 n = pa.get_number_of_particles()
+                if n > 0:
+                    # the cached minimum is only as fresh as the last
+                    # update_min_max (done by the NNPS, not after every
+                    # change of h).
+                    h.update_min_max()
 
             # an empty array has no smoothing length (its cached minimum is 0)
             if n > 0 and h.minimum < hmin:
